@@ -490,7 +490,7 @@ fn check_built(rep: &mut Report, b: &Built, rng: &mut Rng, tb: &Tables) {
 
 pub fn sets(ctx: &Ctx) -> Vec<CaseSet> {
     let tb = Arc::new(Tables::new());
-    let n = ctx.size(100_000, 1_800_000);
+    let n = ctx.size(100_000, 8_000_000);
     let tb1 = tb.clone();
     let mut cfg = gen::GenCfg::default_dialect();
     cfg.max_depth = 4;
